@@ -339,8 +339,12 @@ class DocGen:
         composites = [nm for nm, td in s.types.items() if td.kind in ("OBJECT", "INTERFACE", "UNION")
                       and nm not in (s.mutation, s.subscription)]
         # fragments are generated last-to-first so that F_i may spread F_j (j > i): a DAG
+        # operation names and fragment names are separate namespaces: sometimes they coincide
+        clash = t.chance(20)
         for i in range(nfr - 1, -1, -1):
-            name = "Fr%d" % i
+            name = ("Op%d" % i) if (clash and t.chance(60)) else ("Fr%d" % i)
+            if name.startswith("Op"):
+                self.probe("fragment_named_like_operation")
             cond = t.choose(composites)
             self.owner = "frag:" + name
             self.frag_floor = i
